@@ -169,7 +169,7 @@ def _target(op, spec):
         f = W.subspec(spec, ".".join(path))
         return ".".join(path), (t if f is not None and f["k"] not in ("Schema", "CType") else None)
     if op[0] == "cmdline":
-        return None
+        return (op[2], op[3]) if len(op) > 3 else None
     if op[0] in ("mut", "reset", "setcfg", "from-sibling"):
         return op[1], None
     if op[0] == "itemset":
